@@ -222,7 +222,7 @@ let diff_events (op : string) (reqs : string) (pre : world) (post : world) : eve
        if ap1.k_target <> ap0.k_target && ap1.k_index = ap0.k_index && ap1.k_ordinal = ap0.k_ordinal then add ph StApply InProgress;
        ignore i';
        let accepted = List.exists (fun r -> match split '/' r with _ :: "OK" :: _ -> true | _ -> false) (if reqs = "." then [] else split ';' reqs) in
-       if ap1.k_ordinal <> ap0.k_ordinal && accepted then add ph StApply Complete
+       if accepted && (ap1.k_ordinal <> ap0.k_ordinal || ap1.k_revision <> ap0.k_revision || ap1.k_index <> ap0.k_index) then add ph StApply Complete
      | _ -> ());
     !evs
   | _ -> []
